@@ -1,3 +1,302 @@
-pub fn main(_args: &[String]) {
-    unimplemented!()
+//! Engine-C harness circuits of C19: `AutomatonChip::parse` and the Base64 chip.
+//!
+//!   ax circuit automaton op=parse k=.. in=b0:b1:.. p.auto=<lib name> | p.r=<R json>   [replay=file]
+//!   ax circuit base64 op=decode_base64|decode_base64url k=.. in=.. p.padded=0|1         [replay=file]
+//!   ax circuit base64 op=var_decode_base64|var_decode_base64url k=.. in=<payload bytes, 0/4/8 of them>
+//!
+//! Same conventions as engines/extract (native.rs): inputs come in through the real `assign` of bytes
+//! (range-checked) and are exposed with `constrain_as_public_input`, outputs are exposed likewise, so the
+//! plain instance column carries (inputs, outputs) in call order. Output JSON shape = dump.rs + io +
+//! honest_verify + extra; `replay=` overwrites cells of the real MockProver (hook H2) and prints the
+//! verdict of the real `MockProver::verify()`.
+
+use std::{cell::RefCell, collections::BTreeMap, rc::Rc};
+
+use ff::{Field, PrimeField};
+use midnight_circuits::{
+    field::{
+        decomposition::{
+            chip::{P2RDecompositionChip, P2RDecompositionConfig},
+            pow2range::Pow2RangeChip,
+        },
+        native::{NB_ARITH_COLS, NB_ARITH_FIXED_COLS},
+        NativeChip, NativeGadget,
+    },
+    instructions::*,
+    parsing::{
+        automaton_chip::{AutomatonChip, AutomatonConfig, NB_AUTOMATA_COLS},
+        regex::Regex,
+        Base64Chip, Base64Config, NB_BASE64_ADVICE_COLS,
+    },
+    types::{AssignedByte, AssignedNative, ComposableChip},
+};
+use midnight_curves::Fq as F;
+use midnight_proofs::{
+    circuit::{Layouter, SimpleFloorPlanner, Value},
+    dev::MockProver,
+    plonk::{Circuit, ConstraintSystem, Error},
+};
+use num_bigint::BigUint;
+use rustc_hash::FxHashMap;
+use serde_json::{json, Value as J};
+
+use crate::{dump, dump_automaton, rx};
+
+type NG = NativeGadget<F, P2RDecompositionChip<F>, NativeChip<F>>;
+
+fn f_of(b: &BigUint) -> F {
+    let m = BigUint::from_bytes_le(&(-F::ONE).to_repr().as_ref().to_vec()) + 1u8;
+    let b = b % &m;
+    let mut bytes = b.to_bytes_le();
+    bytes.resize(32, 0);
+    let mut repr = <F as PrimeField>::Repr::default();
+    repr.as_mut().copy_from_slice(&bytes);
+    F::from_repr(repr).unwrap()
+}
+
+fn parse_big(s: &str) -> BigUint {
+    if let Some(h) = s.strip_prefix("0x") {
+        BigUint::parse_bytes(h.as_bytes(), 16).expect("hex")
+    } else {
+        BigUint::parse_bytes(s.as_bytes(), 10).expect("dec")
+    }
+}
+
+#[derive(Clone, Debug, Default)]
+struct Spec {
+    family: String,
+    op: String,
+    params: BTreeMap<String, String>,
+    ins: Vec<u8>,
+}
+
+#[derive(Clone, Default)]
+struct IoLog(Rc<RefCell<Vec<(bool, F)>>>);
+
+impl IoLog {
+    fn in_byte(&self, chip: &NG, l: &mut impl Layouter<F>, b: u8) -> Result<AssignedByte<F>, Error> {
+        self.0.borrow_mut().push((true, F::from(b as u64)));
+        let x: AssignedByte<F> = chip.assign(l, Value::known(b))?;
+        chip.constrain_as_public_input(l, &x)?;
+        Ok(x)
+    }
+    fn out_native(&self, chip: &NG, l: &mut impl Layouter<F>, x: &AssignedNative<F>) -> Result<(), Error> {
+        x.value().map(|v| self.0.borrow_mut().push((false, *v)));
+        chip.constrain_as_public_input(l, x)
+    }
+    fn out_byte(&self, chip: &NG, l: &mut impl Layouter<F>, x: &AssignedByte<F>) -> Result<(), Error> {
+        let n: AssignedNative<F> = x.clone().into();
+        n.value().map(|v| self.0.borrow_mut().push((false, *v)));
+        chip.constrain_as_public_input(l, x)
+    }
+}
+
+fn the_regex(spec: &Spec) -> Regex {
+    if let Some(name) = spec.params.get("auto") {
+        let e = rx::lib::lib_entries().into_iter().find(|e| e.name == name).unwrap_or_else(|| panic!("unknown library regex {name}"));
+        (e.real)()
+    } else {
+        let r: J = serde_json::from_str(spec.params.get("r").expect("p.auto or p.r")).expect("R json");
+        rx::build(&r)
+    }
+}
+
+#[derive(Clone)]
+struct C19Circuit {
+    spec: Spec,
+    io: IoLog,
+}
+
+#[derive(Clone, Debug)]
+struct C19Config {
+    p2r: P2RDecompositionConfig,
+    automaton: Option<AutomatonConfig<usize, F>>,
+    base64: Option<Base64Config>,
+}
+
+impl Circuit<F> for C19Circuit {
+    type Config = C19Config;
+    type FloorPlanner = SimpleFloorPlanner;
+    type Params = Spec;
+
+    fn without_witnesses(&self) -> Self {
+        unreachable!()
+    }
+    fn params(&self) -> Spec {
+        self.spec.clone()
+    }
+    fn configure(_meta: &mut ConstraintSystem<F>) -> Self::Config {
+        unreachable!()
+    }
+    fn configure_with_params(meta: &mut ConstraintSystem<F>, spec: Spec) -> Self::Config {
+        let advice_columns: [_; NB_ARITH_COLS] = core::array::from_fn(|_| meta.advice_column());
+        let fixed_columns: [_; NB_ARITH_FIXED_COLS] = core::array::from_fn(|_| meta.fixed_column());
+        let ci = meta.instance_column();
+        let i = meta.instance_column();
+        let native_config = NativeChip::configure(meta, &(advice_columns, fixed_columns, [ci, i]));
+        let pow2range_config = Pow2RangeChip::configure(meta, &advice_columns[1..=4]);
+        let p2r = P2RDecompositionConfig::new(&native_config, &pow2range_config);
+        let mut automaton = None;
+        let mut base64 = None;
+        match spec.family.as_str() {
+            "automaton" => {
+                // the REAL compilation of the regex; index 0 in the chip's library
+                let a = the_regex(&spec).to_automaton();
+                let automata = FxHashMap::from_iter([(0usize, a)]);
+                let cols: [_; NB_AUTOMATA_COLS] = advice_columns[..NB_AUTOMATA_COLS].try_into().unwrap();
+                automaton = Some(AutomatonChip::<usize, F>::configure(meta, &(cols, automata)));
+            }
+            "base64" => {
+                let cols: [_; NB_BASE64_ADVICE_COLS] = advice_columns[..NB_BASE64_ADVICE_COLS].try_into().unwrap();
+                base64 = Some(Base64Chip::<F>::configure(meta, &cols));
+            }
+            f => panic!("unknown family {f}"),
+        }
+        C19Config { p2r, automaton, base64 }
+    }
+
+    fn synthesize(&self, config: Self::Config, mut layouter: impl Layouter<F>) -> Result<(), Error> {
+        let native_chip = NativeChip::new(config.p2r.native_config(), &());
+        let core = P2RDecompositionChip::new(&config.p2r, &8usize);
+        let ng: NG = NativeGadget::new(core.clone(), native_chip.clone());
+        self.io.0.borrow_mut().clear();
+        let l = &mut layouter;
+        let s = &self.spec;
+        match s.family.as_str() {
+            "automaton" => {
+                let chip = AutomatonChip::<usize, F>::new(config.automaton.as_ref().unwrap(), &ng);
+                let input = s.ins.iter().map(|b| self.io.in_byte(&ng, l, *b)).collect::<Result<Vec<_>, _>>()?;
+                let markers = chip.parse(l, &0usize, &input)?;
+                for m in markers.iter() {
+                    self.io.out_native(&ng, l, m)?;
+                }
+                chip.load(l)?;
+            }
+            "base64" => {
+                let chip = Base64Chip::<F>::new(config.base64.as_ref().unwrap(), &ng);
+                match s.op.as_str() {
+                    "decode_base64" | "decode_base64url" => {
+                        let padded = s.params.get("padded").map(|x| x == "1").unwrap_or(true);
+                        let input = s.ins.iter().map(|b| self.io.in_byte(&ng, l, *b)).collect::<Result<Vec<_>, _>>()?;
+                        let out = if s.op == "decode_base64" { chip.decode_base64(l, &input, padded)? } else { chip.decode_base64url(l, &input, padded)? };
+                        for b in out.iter() {
+                            self.io.out_byte(&ng, l, b)?;
+                        }
+                    }
+                    "var_decode_base64" | "var_decode_base64url" => {
+                        synth_var(s.op == "var_decode_base64url", &s.ins, &chip, &ng, &self.io, l)?;
+                    }
+                    o => panic!("unknown base64 op {o}"),
+                }
+                chip.load(l)?;
+            }
+            _ => unreachable!(),
+        }
+        native_chip.load(l)?;
+        core.load(l)
+    }
+}
+
+/// Variable-length decoding, M = 8, A = 4 (output M = 6, A = 3). The input vector is created by the real
+/// `assign_var_base64`; its buffer bytes and its length cell (hook H7 accessors) are exposed as inputs,
+/// the output vector's buffer and length as outputs: instance = (buf[0..8], len, out[0..6], out_len).
+fn synth_var(url: bool, payload: &[u8], chip: &Base64Chip<F>, ng: &NG, io: &IoLog, l: &mut impl Layouter<F>) -> Result<(), Error> {
+    use midnight_circuits::{
+        instructions::base64::{Base64VarInstructions, Base64Vec},
+        types::AssignedVector,
+    };
+    let v: Base64Vec<F, 8, 4> = chip.assign_var_base64(l, Value::known(payload.to_vec()))?;
+    let av: AssignedVector<F, AssignedByte<F>, 8, 4> = v.clone().into();
+    for b in av.verif_buffer().iter() {
+        let n: AssignedNative<F> = b.clone().into();
+        n.value().map(|x| io.0.borrow_mut().push((true, *x)));
+        ng.constrain_as_public_input(l, b)?;
+    }
+    av.verif_len().value().map(|x| io.0.borrow_mut().push((true, *x)));
+    ng.constrain_as_public_input(l, av.verif_len())?;
+    let out: AssignedVector<F, AssignedByte<F>, 6, 3> = if url {
+        <Base64Chip<F> as Base64VarInstructions<F, 8, 4>>::var_decode_base64url::<6, 3>(chip, l, &v)?
+    } else {
+        <Base64Chip<F> as Base64VarInstructions<F, 8, 4>>::var_decode_base64::<6, 3>(chip, l, &v)?
+    };
+    for b in out.verif_buffer().iter() {
+        io.out_byte(ng, l, b)?;
+    }
+    io.out_native(ng, l, out.verif_len())
+}
+
+pub fn main(args: &[String]) {
+    let mut spec = Spec { family: args.first().expect("family").clone(), ..Default::default() };
+    let mut k = 10u32;
+    let mut replay = None;
+    for a in &args[1..] {
+        let (key, val) = a.split_once('=').unwrap_or_else(|| panic!("bad arg {a}"));
+        match key {
+            "op" => spec.op = val.to_string(),
+            "k" => k = val.parse().unwrap(),
+            "in" => {
+                spec.ins = val.split(':').filter(|x| !x.is_empty()).map(|x| parse_big(x).to_u32_digits().first().copied().unwrap_or(0) as u8).collect()
+            }
+            "replay" => replay = Some(val.to_string()),
+            _ if key.starts_with("p.") => {
+                spec.params.insert(key[2..].to_string(), val.to_string());
+            }
+            _ => panic!("unknown arg {a}"),
+        }
+    }
+    let io = IoLog::default();
+    let circuit = C19Circuit { spec: spec.clone(), io: io.clone() };
+    let _ = MockProver::<F>::run(k, &circuit, vec![vec![], vec![]]).expect("synthesis (pass 1)");
+    let rec: Vec<(bool, F)> = io.0.borrow().clone();
+    let pi: Vec<F> = rec.iter().map(|x| x.1).collect();
+    let prover = MockProver::<F>::run(k, &circuit, vec![vec![], pi]).expect("synthesis (pass 2)");
+    let mut extra = json!({"family": spec.family, "op": spec.op, "params": spec.params});
+    if spec.family == "automaton" {
+        let a = the_regex(&spec).to_automaton();
+        extra["automaton"] = dump_automaton!(a);
+    }
+    finish(prover, rec, replay, extra);
+}
+
+fn finish(prover: MockProver<F>, io: Vec<(bool, F)>, replay: Option<String>, extra: J) {
+    #[allow(unused_mut)]
+    let mut prover = prover;
+    if let Some(path) = replay {
+        let ov: BTreeMap<String, String> = serde_json::from_str(&std::fs::read_to_string(&path).unwrap()).unwrap();
+        let mut applied = 0;
+        for (cell, val) in ov.iter() {
+            let v = f_of(&parse_big(val));
+            let (kind, rest) = cell.split_at(1);
+            let (c, r) = rest.split_once('_').unwrap();
+            let (c, r): (usize, usize) = (c.parse().unwrap(), r.parse().unwrap());
+            match kind {
+                "a" => {
+                    prover.advice_mut()[c][r] = midnight_proofs::dev::CellValue::Assigned(v);
+                    applied += 1;
+                }
+                "i" => {
+                    prover.instance_mut()[c][r] = midnight_proofs::dev::InstanceValue::Assigned(v);
+                    applied += 1;
+                }
+                _ => panic!("cannot override cell {cell}"),
+            }
+        }
+        let res = prover.verify();
+        let ok = res.is_ok();
+        let fails: Vec<String> = res.err().map(|v| v.iter().take(4).map(|f| format!("{:?}", f).chars().take(300).collect()).collect()).unwrap_or_default();
+        println!("{}", json!({"replay": true, "applied": applied, "accepted": ok, "failures": fails}));
+        return;
+    }
+    let verify_ok = prover.verify().is_ok();
+    let d = dump::Dumper::new(&prover);
+    let mut out = d.dump();
+    let iorows: Vec<J> = io
+        .iter()
+        .enumerate()
+        .map(|(r, (is_in, v))| json!({"row": r, "dir": if *is_in { "in" } else { "out" }, "value": dump::hex(v)}))
+        .collect();
+    out["io"] = J::Array(iorows);
+    out["honest_verify"] = J::Bool(verify_ok);
+    out["extra"] = extra;
+    println!("{}", out);
 }
